@@ -155,7 +155,8 @@ Section SpecSet.
   Qed.
 
   (** * D. loading a valid set; each saved file is either present and intact (kept) or missing *)
-  Definition maxvol (files : list s1file) : nat := N.to_nat (N.min (256 - N.of_nat (length files)) 99).
+  (* the volume numbers the loader looks at: only the SAVED entries are shards and count against the limit of 256 *)
+  Definition maxvol (files : list s1file) : nat := N.to_nat (N.min (256 - N.of_nat (length (filter sf_saved files))) 99).
   Definition fpath (ix : list N) (f : s1file) : list N := join2 (dir ix) (sf_name f).
 
   Lemma erase_kept (kept : s1file -> bool) : forall sfiles : list s1file,
@@ -206,7 +207,7 @@ Section SpecSet.
       - apply forallb_nth; [exact HC|exact Hk'].
       - rewrite Forall_forall in Hlens. apply Hlens. apply nth_In. exact Hk'. }
     set (H := md5 (concat (map (fun f => md5 (sf_data f)) (filter sf_saved files)))) in *.
-    assert (Hcount : N.of_nat (length files) < 256) by (unfold maxvol in Hnv; lia).
+    assert (Hcount : N.of_nat (length (filter sf_saved files)) < 256) by (unfold maxvol in Hnv; lia).
     assert (Hsdne : sd <> []) by (intros E; apply Hsz; rewrite E; reflexivity).
     assert (Hsd255 : (length sd <= 255)%nat).
     { destruct (Nat.eqb_spec nvol 0) as [E0|_]; [lia|]. cbn [orb] in V4. apply Nat.leb_le in V4.
@@ -255,9 +256,11 @@ Section SpecSet.
     (* assemble *)
     pose proof (p1_load_ok md5 ix (io_init fs []) _ sa v0 (erase (map kept sfiles) sd) sb
                   (map Some (par1_encode (length sd) nvol (map (pad L) sd)) ++ repeat None (maxv - nvol)) L sd' He ER EV0) as PL.
-    rewrite N0, Efilt, SH0, CN0 in PL. fold H in PL.
+    unfold nsaved in PL. rewrite N0, Efilt, SH0 in PL. fold H in PL.
+    assert (Hles : length es = length (filter sf_saved files)) by (unfold es, sfiles; apply map_length).
+    rewrite Hles in PL.
     specialize (PL eq_refl EL Hds).
-    assert (EC : (256 <=? N.of_nat (length files)) = false) by (apply N.leb_gt; exact Hcount).
+    assert (EC : (256 <=? N.of_nat (length (filter sf_saved files))) = false) by (apply N.leb_gt; exact Hcount).
     specialize (PL EC). fold maxv in PL. unfold maxvol in maxv. specialize (PL ELV1).
     rewrite firstn_last_some in PL.
     2:{ intros E0. apply (f_equal (@length bytes)) in E0.
@@ -542,3 +545,123 @@ End Par1SpecSetExample.
 
 Print Assumptions Par1SpecSetExample.par1_verify_conformant_set_example.
 Print Assumptions Par1SpecSetExample.par1_repair_conformant_set_example.
+
+(** * ONLY THE SAVED ENTRIES COUNT AGAINST THE LIMIT OF 256.  A hand-made conformant set (the independent writer hm_build, over a linear-time stand-in digest) whose file
+      list has 256 entries: two saved files ("x", "y") and, between them, 254 entries that are NOT saved in the parity
+      set (name "z", no data); one parity volume.  It satisfies the premises of par1_verify_conformant_set: the
+      loader looks at volumes 1 .. min (256 - 2) 99.  (Counting all 256 entries, as the loader did before the fix,
+      Verify and Repair failed with "too many files".) *)
+Module Par1SpecManyUnsaved.
+  Import Par1SpecExamples.
+
+  (* a stand-in digest that is linear in the input (toy_md5 recomputes the length per byte; the files here are 15 KB):
+     the length and the first 16 bytes *)
+  Definition mu_md5 (b : bytes) : bytes :=
+    let n := N.of_nat (length b) in firstn 16 (map (fun x => (x * 7 + n) mod 256) (firstn 16 b) ++ zeros 16).
+  Lemma mu_len x : length (mu_md5 x) = 16%nat.
+  Proof.
+    unfold mu_md5. cbv zeta. rewrite firstn_length, app_length. unfold zeros. rewrite repeat_length. lia.
+  Qed.
+  (* the independent writer of Par1SpecExamples (hm_build, hm_entry) over that digest *)
+  Definition mu_build (number count flo flb dof db : N) (sethash body : bytes) : bytes :=
+    let tail := sethash ++ le_encode 8 number ++ le_encode 8 count ++ le_encode 8 flo ++ le_encode 8 flb
+                ++ le_encode 8 dof ++ le_encode 8 db ++ body in
+    [80; 65; 82; 0; 0; 0; 0; 0] ++ le_encode 4 0x00010000 ++ le_encode 4 0xBEEF ++ mu_md5 tail ++ tail.
+  Definition mu_entry (status : N) (data name16 : bytes) : bytes :=
+    le_encode 8 (56 + N.of_nat (length name16)) ++ le_encode 8 status ++ le_encode 8 (N.of_nat (length data))
+      ++ mu_md5 data ++ mu_md5 (firstn (N.to_nat 16384) data) ++ name16.
+
+  Definition mu_n : nat := 254.
+  Definition mu_d1 : bytes := [1; 2; 3].
+  Definition mu_d2 : bytes := [4].
+  Definition mu_unsaved : s1file := {| sf_name := [122]; sf_data := []; sf_status := 0 |}.
+  Definition mu_files : list s1file :=
+    {| sf_name := [120]; sf_data := mu_d1; sf_status := 1 |} :: repeat mu_unsaved mu_n
+      ++ [{| sf_name := [121]; sf_data := mu_d2; sf_status := 1 |}].
+  Definition mu_list : bytes :=
+    mu_entry 1 mu_d1 [120; 0] ++ concat (repeat (mu_entry 0 [] [122; 0]) mu_n) ++ mu_entry 1 mu_d2 [121; 0].
+  Definition mu_sethash : bytes := mu_md5 (mu_md5 mu_d1 ++ mu_md5 mu_d2).
+  Definition mu_flb : N := N.of_nat (length mu_list).
+  Definition mu_count : N := N.of_nat (S (S mu_n)).
+  Definition mu_index : bytes := mu_build 0 mu_count 96 mu_flb (96 + mu_flb) 0 mu_sethash mu_list.
+  Definition mu_vol (v : nat) : bytes :=
+    let p := s1_parity [mu_d1; mu_d2] v in
+    mu_build (N.of_nat v) mu_count 96 mu_flb (96 + mu_flb) (N.of_nat (length p)) mu_sethash (mu_list ++ p).
+  Definition mu_outs : list bytes := [mu_index; mu_vol 1].
+  Definition mu_ix : list N := [97; 46; 112; 97; 114].                                            (* "a.par" *)
+  Definition mu_fs : list (list N * bytes) :=
+    [ (mu_ix, mu_index); ([97; 46; 112; 48; 49], mu_vol 1); ([120], mu_d1); ([121], mu_d2) ].
+
+  Example mu_counts :
+    length mu_files = 256%nat /\ length (filter sf_saved mu_files) = 2%nat /\ maxvol mu_files = 99%nat.
+  Proof. vm_compute. repeat split; reflexivity. Qed.
+
+  Lemma mu_premises :
+    str_eqb (ext mu_ix) EXT_PAR = true /\
+    s1_set_valid mu_md5 mu_files [] 1 mu_outs = true /\
+    forallb (s1_contiguous mu_md5) mu_outs = true /\
+    Forall (fun o : bytes => N.of_nat (length o) < 2^64) mu_outs /\
+    Forall (fun f => sf_name f <> []) mu_files /\
+    Forall wf_bytes (s1_saved_datas mu_files) /\ max_len (s1_saved_datas mu_files) <> 0%nat /\
+    (1 <= 1 <= maxvol mu_files)%nat /\
+    fs_lookup mu_fs mu_ix = Some (nth 0 mu_outs []) /\
+    (forall k, (1 <= k <= 1)%nat -> fs_lookup mu_fs (volume_path mu_ix (N.of_nat k)) = Some (nth k mu_outs [])) /\
+    (forall k, (1 < k <= maxvol mu_files)%nat -> read_res mu_fs (volume_path mu_ix (N.of_nat k)) = Err ENotExist) /\
+    (forall f, In f mu_files -> sf_saved f = true ->
+       base (sf_name f) = sf_name f /\ fs_lookup mu_fs (join2 (dir mu_ix) (sf_name f)) = Some (sf_data f)).
+  Proof.
+    assert (Emax : maxvol mu_files = 99%nat) by (vm_compute; reflexivity).
+    split; [vm_compute; reflexivity|]. split; [vm_compute; reflexivity|]. split; [vm_compute; reflexivity|].
+    split; [repeat (constructor; [vm_compute; reflexivity|]); constructor|].
+    split.
+    { apply Forall_forall. intros f Hf. unfold mu_files in Hf. cbn [In] in Hf.
+      destruct Hf as [<-|Hf]; [discriminate|]. apply in_app_or in Hf.
+      destruct Hf as [Hf|[<-|[]]]; [apply repeat_spec in Hf; subst f|]; discriminate. }
+    split; [vm_compute; repeat constructor|]. split; [vm_compute; discriminate|].
+    split; [rewrite Emax; lia|]. split; [vm_compute; reflexivity|].
+    split; [|split].
+    - intros k Hk. assert (E : k = 1%nat) by lia. subst k. vm_compute. reflexivity.
+    - rewrite Emax. intros k Hk.
+      assert (G : forallb (fun j => match read_res mu_fs (volume_path mu_ix (N.of_nat j)) with
+                                    | Err ENotExist => true | _ => false end) (seq 2 98) = true)
+        by (vm_compute; reflexivity).
+      rewrite forallb_forall in G. specialize (G k ltac:(apply in_seq; lia)).
+      destruct (read_res mu_fs (volume_path mu_ix (N.of_nat k))) as [d|[]|q]; try discriminate G. reflexivity.
+    - intros f Hf Hs. unfold mu_files in Hf. cbn [In] in Hf.
+      destruct Hf as [<-|Hf]; [split; vm_compute; reflexivity|]. apply in_app_or in Hf.
+      destruct Hf as [Hf|[<-|[]]]; [apply repeat_spec in Hf; subst f; discriminate Hs|split; vm_compute; reflexivity].
+  Qed.
+
+  Example par1_verify_many_unsaved_entries : forall all,
+    (exists c st, par1_verify mu_md5 mu_ix all (io_init mu_fs []) = (Ok (c, all), st) /\
+       fc_unusable c = 0%nat /\ fc_punusable c = 0%nat /\ fc_usable c = 2%nat /\ fc_pusable c = 1%nat) /\
+    (forall dbl r rp st', par1_repair mu_md5 mu_ix dbl (io_init mu_fs []) = ((r, rp), st') -> rp = [] /\ io_fs st' = mu_fs).
+  Proof.
+    intros all. destruct mu_premises as (P1 & P2 & P3 & P4 & P5 & P6 & P7 & P8 & P9 & P10 & P11 & P12).
+    exact (par1_verify_conformant_set mu_md5 mu_len mu_ix mu_files [] 1 mu_outs mu_fs all
+             P1 P2 P3 P4 P5 P6 P7 P8 P9 P10 P11 P12).
+  Qed.
+
+  Example many_unsaved_entries_example : forall all,
+    (length mu_files = 256%nat /\ length (filter sf_saved mu_files) = 2%nat) /\
+    (exists c st, par1_verify mu_md5 mu_ix all (io_init mu_fs []) = (Ok (c, all), st) /\
+       fc_unusable c = 0%nat /\ fc_punusable c = 0%nat /\ fc_usable c = 2%nat /\ fc_pusable c = 1%nat) /\
+    (forall dbl r rp st', par1_repair mu_md5 mu_ix dbl (io_init mu_fs []) = ((r, rp), st') -> rp = [] /\ io_fs st' = mu_fs).
+  Proof.
+    intros all. destruct mu_counts as (C1 & C2 & _). split; [split; assumption|].
+    exact (par1_verify_many_unsaved_entries all).
+  Qed.
+
+  (* the same by evaluating the model; and with the saved file "x" deleted Repair restores it *)
+  Example mu_computed :
+    fst (par1_verify mu_md5 mu_ix true (io_init mu_fs [])) =
+      Ok ({| fc_usable := 2; fc_unusable := 0; fc_pusable := 1; fc_punusable := 0 |}, true) /\
+    (let fs' := filter (fun kv : list N * bytes => negb (str_eqb (fst kv) [120])) mu_fs in
+     fs_lookup fs' [120] = None /\
+     let r := par1_repair mu_md5 mu_ix true (io_init fs' []) in
+     fst r = (Ok tt, [[120]]) /\ fs_lookup (io_fs (snd r)) [120] = Some mu_d1).
+  Proof. vm_compute. repeat split; reflexivity. Qed.
+End Par1SpecManyUnsaved.
+
+Print Assumptions Par1SpecManyUnsaved.par1_verify_many_unsaved_entries.
+Print Assumptions Par1SpecManyUnsaved.mu_computed.
